@@ -199,9 +199,8 @@ func Harness_stream_attacker() {
 	n := pos("len", V.ChunkSize(), V.Param("maxq", 1))
 	P := V.Bytes("P", n)
 	X := encryptSegmented(key, P, 0, n)
-	// |Y| ranges over 0 .. |X| + one chunk + 1 (in units of encrypted chunks)
-	ylen := pos("ylen", c+16, V.Param("maxq", 1)+2)
-	V.Assume(ylen <= len(X)+c+16+1)
+	// |Y| ranges over 0 .. |X| + one chunk + 1
+	ylen := lenNear("ylen", X, n, c+16+1)
 	Y := V.Attacker("Y", X, ylen)
 	src := &scripted{data: Y, failAt: -1}
 	switch V.Int("piece", 0, 1) {
@@ -229,4 +228,193 @@ func imin(a, b int) int {
 		return a
 	}
 	return b
+}
+
+// ---------------------------------------------------------------------------
+// C13: I/O faults
+
+var errWriteFault = errors.New("injected write fault")
+
+// faultyWriter honours the io.Writer contract (n < len(p) implies err != nil).
+// Call number failAt fails after accepting keep bytes of that buffer; if once
+// is false every later call fails too (accepting nothing).
+type faultyWriter struct {
+	buf    bytes.Buffer
+	calls  int
+	failAt int
+	keep   int
+	once   bool
+	failed bool
+}
+
+func (f *faultyWriter) Write(p []byte) (int, error) {
+	k := f.calls
+	f.calls++
+	if k == f.failAt {
+		f.failed = true
+		n := f.keep
+		if n > len(p) {
+			n = len(p)
+		}
+		f.buf.Write(p[:n])
+		return n, errWriteFault
+	}
+	if f.failed && !f.once {
+		return 0, errWriteFault
+	}
+	return f.buf.Write(p)
+}
+
+// Harness_stream_write_fault (C13): the destination fails at an arbitrary call
+// (permanently or once), accepting an arbitrary prefix of that buffer. If every
+// Write and Close reports success the destination holds the complete stream;
+// once a call has failed every later call fails.
+func Harness_stream_write_fault() {
+	key := V.Bytes("key", 32)
+	c := V.ChunkSize()
+	n := pos("len", c, V.Param("maxq", 2))
+	P := V.Bytes("P", n)
+	a := pos("a", c, V.Param("maxq", 2))
+	V.Assume(a <= n)
+	want := encryptSegmented(key, P, 0, n)
+	dst := &faultyWriter{failAt: V.Int("failAt", 0, V.Param("maxq", 2)+1), once: V.Bool("once")}
+	switch V.Int("keep", 0, 2) {
+	case 0:
+		dst.keep = 0
+	case 1:
+		dst.keep = 1
+	case 2:
+		dst.keep = c + 15
+	}
+	w, err := NewWriter(key, dst)
+	V.Assert(err == nil, "NewWriter failed")
+	var errs []error
+	n1, e1 := w.Write(P[:a])
+	errs = append(errs, e1)
+	n2, e2 := w.Write(P[a:])
+	errs = append(errs, e2)
+	errs = append(errs, w.Close())
+	V.Assert(e1 != nil || n1 == a, "successful Write reported a short count")
+	V.Assert(e2 != nil || n2 == n-a, "successful Write reported a short count")
+	allNil := true
+	seenErr := false
+	for _, e := range errs {
+		if e != nil {
+			allNil = false
+			seenErr = true
+		} else {
+			V.Assert(!seenErr, "a stream that has failed reported success afterwards")
+		}
+	}
+	if allNil {
+		V.Reach("all-succeeded")
+		V.Assert(bytes.Equal(dst.buf.Bytes(), want), "every call succeeded but the destination does not hold the complete stream")
+	} else {
+		V.Reach("failed")
+		_, e4 := w.Write([]byte{0})
+		V.Assert(e4 != nil, "Write after a failure reported success")
+		V.Assert(w.Close() != nil, "Close after a failure reported success")
+	}
+}
+
+// offsetIn returns an offset 0..len(X) into the encrypted stream X of an
+// n-byte plaintext, expressed either relative to a chunk boundary before the
+// last chunk or relative to the end of X, so that the same model denotes the
+// corresponding offset when replayed at the real chunk size.
+func offsetIn(name string, X []byte, n int) int { return offsetAround(name, X, n, 0) }
+
+// offsetAround is offsetIn extended to offsets up to extra bytes beyond the end of X.
+func offsetAround(name string, X []byte, n, extra int) int {
+	c := V.ChunkSize()
+	chunks := (n + c - 1) / c
+	if chunks == 0 {
+		chunks = 1
+	}
+	lastStart := (chunks - 1) * (c + 16)
+	if V.Bool(name + ".fromEnd") {
+		return len(X) - V.Int(name+".e", -extra, len(X)-lastStart)
+	}
+	p := pos(name, c+16, chunks)
+	V.Assume(p < lastStart)
+	return p
+}
+
+// lenNear returns a length 0..len(X)+extra expressed as len(X) plus a whole
+// number of encrypted chunks plus a small remainder, so that a model found at
+// a small rebased chunk size denotes the corresponding length (same number of
+// whole chunks more or less, same remainder) at the real chunk size.
+func lenNear(name string, X []byte, n, extra int) int {
+	c := V.ChunkSize()
+	u := c + 16
+	chunks := (n + c - 1) / c
+	if chunks == 0 {
+		chunks = 1
+	}
+	k := V.Int(name+".k", -chunks, 1)
+	d := V.Int(name+".d", -(u / 2), u/2)
+	V.Assume(2*d > -u && 2*d <= u)
+	y := len(X) + k*u + d
+	V.Assume(y >= 0 && y <= len(X)+extra)
+	return y
+}
+
+// Harness_stream_read_fault (C13): the source fails with a non-EOF error at an
+// arbitrary offset (including exactly at the end of the data): the reader
+// returns a non-EOF error, released bytes are a prefix, the error is sticky.
+func Harness_stream_read_fault() {
+	key := V.Bytes("key", 32)
+	c := V.ChunkSize()
+	n := pos("len", c, V.Param("maxq", 2))
+	P := V.Bytes("P", n)
+	X := encryptSegmented(key, P, 0, n)
+	failAt := offsetIn("failAt", X, n)
+	src := &scripted{data: X, failAt: failAt}
+	if V.Bool("bytewise") {
+		src.piece = 1
+	}
+	r, _ := NewReader(key, src)
+	out, rerr := drain(r, stepSize(n), n+len(X)+8)
+	V.Reach("returned")
+	V.Assert(rerr != nil && rerr != io.EOF, "a source failure ended in a clean end of stream")
+	V.Assert(len(out) <= n && bytes.Equal(out, P[:imin(len(out), n)]), "bytes released before the failure are not a prefix of the plaintext")
+	k, e2 := r.Read(make([]byte, 1))
+	V.Assert(k == 0 && e2 != nil && e2 != io.EOF, "a failed stream does not keep failing")
+}
+
+// ---------------------------------------------------------------------------
+// C06 / C02 lemma: incNonce is +1 on the 88-bit big-endian counter
+
+// Harness_stream_incnonce: for an arbitrary nonce, incNonce adds one to the
+// big-endian counter in bytes 0..10, leaves the flag byte alone and panics
+// exactly when the counter is all ones.
+func Harness_stream_incnonce() {
+	var nonce [12]byte
+	copy(nonce[:], V.Bytes("nonce", 12))
+	before := nonce
+	allFF := true
+	for i := 0; i < 11; i++ {
+		if before[i] != 0xff {
+			allFF = false
+		}
+	}
+	if allFF {
+		V.Reach("wrap")
+		V.PanicOK()
+		incNonce(&nonce)
+		V.Assert(false, "counter wrapped around without a panic")
+		return
+	}
+	incNonce(&nonce)
+	V.Reach("incremented")
+	// reference: schoolbook increment from the least significant byte
+	want := before
+	for i := 10; i >= 0; i-- {
+		want[i]++
+		if want[i] != 0 {
+			break
+		}
+	}
+	V.Assert(nonce == want, "incNonce is not +1 on the big-endian counter")
+	V.Assert(nonce[11] == before[11], "incNonce touched the flag byte")
+	V.Assert(nonce != before, "nonce unchanged")
 }
